@@ -11,24 +11,46 @@ from leanfmt import lean_list, lean_str
 
 ID = "C08"
 LEAN_MODULES = ["EzdxfVerif.Props.C08"]
-DRIVER_DEPS = ["EzdxfVerif.Model.Readers", "EzdxfVerif.Gen.ReaderTables", "Drivers.Proto"]
+DRIVER_DEPS = ["EzdxfVerif.Model.Readers", "EzdxfVerif.Model.ReadersWrite", "EzdxfVerif.Model.ReadersDetect", "EzdxfVerif.Model.ReadersLines", "EzdxfVerif.Model.ReadersRepair", "EzdxfVerif.Model.ReadersSniff", "EzdxfVerif.Model.ReadersRecVer", "EzdxfVerif.Gen.ReaderTables", "Drivers.Proto"]
 RULE = (
     "correspondence (real code vs Lean model, one line protocol driver): X1 2500/40000 generated ASCII tag streams "
     "(well-formed 60 %, else a structural fault: missing/duplicate/shuffled sections, dropped SECTION/ENDSEC/EOF/name tags, "
     "padded or lower-case structure tags, 999 comments, entities outside sections or behind EOF, tags in front of the "
     "first entity, group codes > 1071, header variables without value; paperspace flags; POLYLINE/INSERT structures "
-    "complete, open, with wrong or unsupported entities inside) through the five real readers (ezdxf.read, the recover "
-    "front end, iterdxf.modelspace, single_pass_modelspace, opendxf().modelspace()) vs the five reader models: result = "
-    "type, handle, linked sub-entity handles and SEQEND per modelspace entity, or the exception class; X2 JSONTagWriter / "
-    "json_tag_loader / TagWriter+ascii_tags_loader on random compiled tag lists vs jsonWrite/jsonLoad/asciiLoad; X3 the tag "
-    "stream of random r12writer call sequences (all add_* methods, fixed tables or not) vs r12File; X4 the group "
-    "structure of files written by the real iterdxf exporter vs exportFile; X5 the model's decidable FileWF' evaluated "
-    "on real Drawing.write output of generated documents (all 7 versions). non-trivial = a non-empty result or an "
-    "error; distinct by hash of the request. oracle (real code only): O1 generated documents (API histories of "
-    "gen/dochist.gen_rich and a many-entity-type generator with code page / UTF-8 text, special characters and "
-    "extreme coordinates, 7 DXF versions, 14 code pages) written by Drawing.write ASCII (LF and CRLF), binary, JSON "
-    "tags (compact, verbose), the iterdxf exporter and r12export, each output read by every reader of its format "
-    "(ezdxf.readfile, ezdxf.read, recover.readfile, recover.read, load_json_tags, iterdxf.modelspace, "
+    "complete, open, with wrong or unsupported entities inside; TEXT values with leading/trailing white space; LF, CRLF or "
+    "mixed line ends) through the five real readers (ezdxf.read/readfile, the recover front end, iterdxf.modelspace, "
+    "single_pass_modelspace, opendxf().modelspace()) vs the five reader models: result = type, handle, linked sub-entity "
+    "handles, SEQEND and TEXT content per modelspace entity, or the exception class; X2 JSONTagWriter / json_tag_loader / "
+    "TagWriter+ascii_tags_loader on random compiled tag lists vs jsonWrite/jsonLoad/asciiLoad; X3 the tag stream of random "
+    "r12writer call sequences vs r12File; X4 the group structure of files written by the real iterdxf exporter vs "
+    "exportFile; X5 the model's decidable FileWF' on real Drawing.write output (42/500 generated documents: many-entity "
+    "generator and dochist histories, 7 versions); X6 the writer model: the sections and entity spaces of the same documents "
+    "exported ONE BY ONE through their own export_dxf, assembled by the model's writeDoc, must equal the file the real "
+    "Drawing.write produced tag for tag, satisfy the local predicate DocOK and flagsOK, and pass recover's re-ordering "
+    "filter unchanged; X7 the five real readers on these real files, on the files the real iterdxf exporter makes of them "
+    "(mixed line ends) and on the real r12export output vs the reader models on their tags (r12writer files: in X3); "
+    "line ends other than LF go through ezdxf.readfile, whose sniffer is_dxf_stream is part of the model (strictf); X8 1500/30000 "
+    "generated headers (variables in any order, duplicated, with wrong value codes, comments in front of the value, names "
+    "without value, no / second / two HEADER sections, variables outside the header) through dxf_file_info, "
+    "fileindex.load, single_pass_modelspace (encoding seen through a probe TEXT every supported encoding decodes "
+    "differently), recover.detect_encoding and Recover.run().dxfversion vs dxfInfo/indexInfo/spInfo/recoverEnc/recoverVersion; X9 600/8000 generated Binary DXF "
+    "headers (both group code widths, 3- and 4-digit and odd code page names, variables beyond byte 1024, look-alike names, "
+    "truncated values) through binary_tags_loader (probe tag) vs binScan; X10 2500/40000 byte strings (LF/CRLF/mixed, "
+    "lone CR as line end or inside a value, values ending with CR, no final newline, odd line count, blank / non-numeric / "
+    "padded code lines, 3000-character values) through ascii_tags_loader on a text-mode stream, recover.bytes_loader and "
+    "iterdxf.binary_tagger vs tagsText/tagsBytesLoader/tagsBinTagger; X11 1200/20000 raw tag streams (LINE and other "
+    "entities with canonical, legacy x1 x2 y1 y2, shuffled, missing, duplicated or split coordinates, with and without a "
+    "closing structure tag) through repair.tag_reorder_layer vs tagReorderLayer; X12 the r12export writer model: the parts of a "
+    "real R12Exporter run (layouts, blocks, header, tables, in the order to_string produces them) assembled by "
+    "r12exportFile must equal the real r12export output tag for tag and satisfy DocOK; X13 the byte offsets fileindex.load "
+    "records for the structure tags (what IterDXF.load_entities seeks to) of generated files with LF/CRLF/mixed line ends "
+    "vs locationOf; X14 the BYTES the real iterdxf exporter writes for source files with LF/CRLF/mixed line ends vs "
+    "exportBytes (prefix and OBJECTS section copied verbatim, written entities with LF, ENDSEC and EOF with CRLF). non-trivial = a non-empty result, an "
+    "error or a decision other than the default; distinct by hash of the request. oracle (real code only): O1 generated "
+    "documents (API histories of gen/dochist.gen_rich and a many-entity-type generator with code page / UTF-8 text, special "
+    "characters and extreme coordinates, 7 DXF versions, 14 code pages) written by Drawing.write ASCII (LF and CRLF), "
+    "binary, JSON tags (compact, verbose), the iterdxf exporter and r12export, each output read by every reader of its "
+    "format (ezdxf.readfile, ezdxf.read, recover.readfile, recover.read, load_json_tags, iterdxf.modelspace, "
     "single_pass_modelspace, opendxf().modelspace()): snapshots (type, order, every existing DXF attribute, exported "
     "content tags, linked sub-entities) compared pairwise for exact equality and with the source document; the written "
     "files are checked for well-formedness by the harness-owned parser; O2 r12writer call sequences (ASCII and binary) "
@@ -39,31 +61,52 @@ TRUSTED_BASE = [
     "compilation (C03) and the attribute loading of factory.load (C01) are outside the model",
     "Cfg abstracts what the readers take from a loaded entity (paperspace flag, owner priority, attribs_follow, bool(entity)); "
     "the driver instantiates it by the first 67/330/66 tag of the entity",
-    "harness/dxfparse.py (independent ASCII DXF reader) for the structure correspondences X3-X5 and the oracle's file check",
-    "CPython: readline()/universal newlines, json.loads, Decimal.quantize as the reference for round(x, 6)",
+    "the content of the records a document exports (DocW: section bodies, entity tags) is an input of the writer model; its "
+    "local well-formedness DocOK and the paperspace flags flagsOK are hypotheses of writers_wf / write_then_read_agree, "
+    "evaluated on the records of real documents by the correspondence X6 (not proved from the entity classes: C01/C04)",
+    "line level: int() is modelled for non-negative decimal group codes with ASCII white space around them (no sign, no "
+    "underscore, no non-ASCII white space); bytes are code points 0‥255",
+    "Binary DXF scan: bytes of names and values are ASCII (the model decodes byte = code point)",
+    "harness/dxfparse.py (independent ASCII DXF reader) for the structure correspondences X3-X7 and the oracle's file check",
+    "CPython: readline()/universal newlines, json.loads, Decimal.quantize as the reference for round(x, 6), codecs.lookup for "
+    "the canonical codec names",
 ]
 ASSUMPTIONS = [
-    "generated values contain no line breaks (a string value with CR/LF is not a valid DXF value: C04/C09)",
+    "generated values contain no line breaks (a string value with CR/LF is not a valid DXF value: C04/C09); lone_cr_differs "
+    "states what the line splitters do with such values",
     "r12writer: line types / text styles other than the defaults only together with fixed_tables=True (otherwise recover's "
     "audit resets the undefined references, which is its job)",
-    "the recover model covers the front end (sections, ENTITIES grouping, linking); the audit that follows in recover.read is "
-    "exercised by the oracle only",
+    "the recover model covers the front end (line splitting, coordinate re-ordering filter, encoding detection, sections, "
+    "ENTITIES grouping, linking); the audit that follows in recover.read is exercised by the oracle only",
+    "detect_agree needs at most five occurrences of the five variables dxf_info counts ($ACADVER, $DWGCODEPAGE, $HANDSEED, "
+    "$INSUNITS, $INSBASE) - true for every header written from ezdxf's HeaderSection (a dict); detect_differs shows the "
+    "disagreement beyond that",
 ]
 OPEN = [
-    "readers_agree needs every modelspace entity to be truthy and single_pass with the ENDSEC fix: on the unchanged tree the "
-    "proved statements are single_pass_current (the last group of the section is lost) and iter_agrees/index_agrees (falsy "
-    "entities are filtered); counterexample theorems single_pass_loses_last_entity, falsy_entity_dropped, export_duplicates_subs",
-    "writers_wf (FileWF' of Drawing.write output) is checked on real files by correspondence X5, proved only for the "
-    "r12writer (r12_structure) and the patched iterdxf exporter (export_structure)",
-    "binary DXF and JSON files reach the strict reader through other tag loaders: their tag-level equality with the ASCII "
-    "loader is C03's theorem set plus json_roundtrip here; format/encoding detection (dxf_info) is oracle-only",
+    "readers_agree needs every modelspace entity to be truthy and single_pass with the ENDSEC fix: the proved statements for "
+    "the other settings of the regenerated probes are single_pass_current and iter_agrees/index_agrees (truthy filter); "
+    "counterexample theorems single_pass_loses_last_entity, falsy_entity_dropped, export_duplicates_subs",
+    "writers_wf is proved for Drawing.write (writers_wf, write_then_read_agree, state_write_read), the r12writer "
+    "(r12_structure) and the iterdxf exporter (export_structure) from LOCAL conditions on the records; that the entity "
+    "classes only export records satisfying DocOK is checked on real documents (X6), not proved (C01/C04 territory); r12export: "
+    "r12export_structure reduces it to the same writer model (gen_r12export_order), the records its converters emit are "
+    "checked on real output (X12), not proved",
+    "the byte codecs of binary DXF and JSON (C03's theorem set plus json_roundtrip here) are not composed with the reader "
+    "theorems inside Lean; Binary DXF: scan_params is modelled (bin_scan_codepage for the value, findSub for the 1024-byte "
+    "window), the tag loop behind it is C03's",
+    "no reader handles a byte order mark (bom_differs); recover's version decision is modelled (recover_version_agrees) but "
+    "not what follows from it inside recover (removal of CLASSES/OBJECTS for R12, table rebuild)",
+    "text decoding with the decided encoding, and recover's automatic \\U+XXXX decoding (known finding F7, re-examined: "
+    "decoding in the strict loader would change documented behaviour for every file that contains the literal text - no "
+    "small safe fix) are outside the tag-level model",
 ]
 
 SRCS = [
     "src/ezdxf/addons/iterdxf.py", "src/ezdxf/lldxf/fileindex.py", "src/ezdxf/lldxf/loader.py", "src/ezdxf/lldxf/tagger.py",
     "src/ezdxf/lldxf/tags.py", "src/ezdxf/entities/subentity.py", "src/ezdxf/sections/entities.py", "src/ezdxf/recover.py",
     "src/ezdxf/lldxf/const.py", "src/ezdxf/lldxf/types.py", "src/ezdxf/lldxf/tagwriter.py", "src/ezdxf/addons/r12writer.py",
-    "src/ezdxf/document.py",
+    "src/ezdxf/document.py", "src/ezdxf/entitydb.py", "src/ezdxf/filemanagement.py", "src/ezdxf/lldxf/validator.py",
+    "src/ezdxf/tools/codepage.py", "src/ezdxf/lldxf/repair.py", "src/ezdxf/addons/r12export.py",
 ]
 
 
@@ -113,6 +156,181 @@ def _probe_max_code(tmp: str) -> int:
     return good[-1]
 
 
+def _export_order():
+    """statement order of Drawing.export_sections and EntitySection.export_dxf, extracted from the AST of the CURRENT
+    source; a statement the extractor does not know is recorded as `?<source>` (the theorem gen_export_order then fails
+    and the writer model has to be brought up to date)"""
+    import ast
+    import inspect
+    import textwrap
+
+    from ezdxf.document import Drawing
+    from ezdxf.sections.entities import EntitySection
+
+    def self_attr(node):
+        # self.<name>
+        return node.attr if isinstance(node, ast.Attribute) and isinstance(node.value, ast.Name) and node.value.id == "self" else None
+
+    def stmt(st, prefix=""):
+        if isinstance(st, ast.Expr) and isinstance(st.value, ast.Constant):
+            return []          # docstring
+        if isinstance(st, ast.Assign) or isinstance(st, ast.Assert):
+            return []
+        if isinstance(st, ast.Expr) and isinstance(st.value, ast.Call):
+            f = st.value.func
+            if isinstance(f, ast.Attribute) and f.attr == "export_dxf":
+                tgt = f.value
+                name = self_attr(tgt)
+                if name:
+                    return [prefix + name]
+                if isinstance(tgt, ast.Name):
+                    return [prefix + tgt.id]
+                # layouts.modelspace().entity_space.export_dxf(tagwriter)
+                if isinstance(tgt, ast.Attribute) and tgt.attr == "entity_space" and isinstance(tgt.value, ast.Call) \
+                        and isinstance(tgt.value.func, ast.Attribute):
+                    return [prefix + tgt.value.func.attr]
+            if isinstance(f, ast.Attribute) and f.attr == "write_tag2" and len(st.value.args) == 2 \
+                    and all(isinstance(a, ast.Constant) for a in st.value.args):
+                return [prefix + "tag:%s,%s" % (st.value.args[0].value, st.value.args[1].value)]
+            if isinstance(f, ast.Attribute) and f.attr == "write_str" and len(st.value.args) == 1 \
+                    and isinstance(st.value.args[0], ast.Constant):
+                return [prefix + "str:" + st.value.args[0].value.replace("\n", "/")]
+        if isinstance(st, ast.If) and not st.orelse:
+            t = st.test
+            if isinstance(t, ast.Compare) and len(t.ops) == 1 and isinstance(t.ops[0], ast.Gt) \
+                    and isinstance(t.left, ast.Name) and t.left.id == "dxfversion" \
+                    and isinstance(t.comparators[0], ast.Name) and t.comparators[0].id == "DXF12":
+                return [x for b in st.body for x in stmt(b, prefix + ">R12:")]
+            if isinstance(t, ast.Attribute) and t.attr == "is_valid" and self_attr(t.value):
+                return [x for b in st.body for x in stmt(b, prefix + "valid:")]
+        if isinstance(st, ast.For) and not st.orelse and self_attr(st.iter) and len(st.body) == 1:
+            inner = stmt(st.body[0], "")
+            if inner == [st.target.id if isinstance(st.target, ast.Name) else "?"]:
+                return [prefix + "each:" + self_attr(st.iter)]
+        return [prefix + "?" + ast.unparse(st)[:60]]
+
+    def order(fn):
+        tree = ast.parse(textwrap.dedent(inspect.getsource(fn))).body[0]
+        return [x for st in tree.body for x in stmt(st)]
+
+    return order(Drawing.export_sections), order(EntitySection.export_dxf)
+
+
+def _btag(r12: bool, code: int, val: bytes) -> bytes:
+    import struct
+
+    return (bytes([code]) if r12 else struct.pack("<H", code)) + val + b"\0"
+
+
+BIN_SENTINEL = b"AutoCAD Binary DXF\r\n\x1a\x00"
+_PROBE = None
+
+
+def probe_bytes():
+    """(bytes, {decoded text: encoding}) : a byte string every supported encoding decodes differently"""
+    global _PROBE
+    if _PROBE is None:
+        from ezdxf.tools import codepage
+
+        encs = sorted(set(codepage.codepage_to_encoding.values()) | {"utf-8"})
+        rnd = random.Random(8)
+        while True:
+            b = bytes(rnd.choice(range(0xA1, 0xFF)) for _ in range(8))
+            dec = {}
+            for e in encs:
+                dec.setdefault(b.decode(e, "surrogateescape"), e)
+            if len(dec) == len(encs):
+                _PROBE = (b, dec)
+                break
+    return _PROBE
+
+
+def _bin_encoding(data: bytes) -> str:
+    """the text encoding binary_tags_loader chose for `data`, seen through the decoded probe tag (the last code-1 tag)"""
+    from ezdxf.lldxf.tagger import binary_tags_loader
+
+    pb, dec = probe_bytes()
+    try:
+        vals = [t.value for t in binary_tags_loader(data) if t.code == 1]
+    except IndexError:
+        return "err"
+    except Exception as ex:  # noqa
+        return "other:" + type(ex).__name__
+    return dec.get(vals[-1], "?") if vals else "?"
+
+
+def _probe_bin_scan_full() -> bool:
+    pb, _ = probe_bytes()
+    data = (BIN_SENTINEL + _btag(True, 0, b"SECTION") + _btag(True, 2, b"HEADER") + _btag(True, 9, b"$ACADVER")
+            + _btag(True, 1, b"AC1009") + _btag(True, 9, b"$DWGCODEPAGE") + _btag(True, 3, b"ANSI_932") + _btag(True, 1, pb))
+    enc = _bin_encoding(data)
+    if enc not in ("cp932", "cp1252"):
+        raise ValueError("binary_tags_loader probe: unexpected encoding %r" % enc)
+    return enc == "cp932"
+
+
+def _r12export_order():
+    """statement order of R12Exporter.to_string (the joined parts) and export_layouts_to_string, from the AST"""
+    import ast
+    import inspect
+    import textwrap
+
+    from ezdxf.addons.r12export import R12Exporter
+
+    def fn_tree(fn):
+        return ast.parse(textwrap.dedent(inspect.getsource(fn))).body[0]
+
+    def self_call(node):
+        if isinstance(node, ast.Call) and isinstance(node.func, ast.Attribute) and isinstance(node.func.value, ast.Name) \
+                and node.func.value.id == "self":
+            return node.func.attr
+        return None
+
+    tree = fn_tree(R12Exporter.to_string)
+    names, order, calls = {}, [], []
+    for st in tree.body:
+        if isinstance(st, ast.Expr) and isinstance(st.value, ast.Constant):
+            continue
+        if isinstance(st, ast.Assign) and len(st.targets) == 1 and isinstance(st.targets[0], ast.Name) and self_call(st.value):
+            names[st.targets[0].id] = self_call(st.value)
+            calls.append(self_call(st.value))
+            continue
+        if isinstance(st, ast.Return) and isinstance(st.value, ast.Call) and isinstance(st.value.func, ast.Attribute) \
+                and st.value.func.attr == "join" and len(st.value.args) == 1 and isinstance(st.value.args[0], ast.Tuple):
+            for el in st.value.args[0].elts:
+                if self_call(el):
+                    order.append(self_call(el))
+                elif isinstance(el, ast.Name):
+                    order.append(names.get(el.id, el.id))
+                else:
+                    order.append("?" + ast.unparse(el)[:40])
+            continue
+        order.append("?" + ast.unparse(st)[:40])
+    lay = []
+    for st in fn_tree(R12Exporter.export_layouts_to_string).body:
+        if isinstance(st, ast.Expr) and isinstance(st.value, ast.Constant):
+            continue
+        if isinstance(st, ast.Assign):
+            continue
+        if isinstance(st, ast.Expr) and self_call(st.value):
+            name = self_call(st.value)
+            if name == "_write_section_header" and st.value.args and isinstance(st.value.args[0], ast.Constant):
+                lay.append("section:" + st.value.args[0].value)
+            elif name == "export_entity_space" and st.value.args:
+                lay.append(ast.unparse(st.value.args[0]).replace("self.doc.", "").replace("().entity_space", ""))
+            elif name == "_write_endsec":
+                lay.append("endsec")
+            else:
+                lay.append(name)
+            continue
+        if isinstance(st, ast.Expr) and isinstance(st.value, ast.Call):
+            continue        # self._tagwriter.set_stream(...)
+        if isinstance(st, ast.Return):
+            continue
+        lay.append("?" + ast.unparse(st)[:40])
+    return order, lay
+
+
 def regenerate(ctx):
     for s in SRCS:
         ctx.src(s)
@@ -139,6 +357,15 @@ def regenerate(ctx):
     flush = _probe_single_pass_flush()
     maxcode = _probe_max_code(str(ctx.scratch))
     falsy = _probe_yields_falsy(str(ctx.scratch))
+    export_order, entity_order = _export_order()
+    from ezdxf.tools import codepage
+
+    cp_table = list(codepage.codepage_to_encoding.items())
+    bin_full = _probe_bin_scan_full()
+    r12x_order, r12x_layouts = _r12export_order()
+    from ezdxf.lldxf import repair
+
+    toolbox = [(k, list(v.keywords["codes"])) for k, v in repair.COORDINATE_FIXING_TOOLBOX.items()]
     text = f"""
 namespace EzdxfVerif.Gen.ReaderTables
 
@@ -169,6 +396,28 @@ def singlePassFlush : Bool := {"true" if flush else "false"}
 /-- probe of iterdxf.modelspace on a file with a POLYLINE without vertices: is an entity with bool(entity) == False delivered? -/
 def iterdxfYieldsFalsy : Bool := {"true" if falsy else "false"}
 
+/-- statements of Drawing.export_sections in source order (AST): which section is exported when -/
+def exportOrder : List String := {lean_list(lean_str(x) for x in export_order)}
+
+/-- statements of EntitySection.export_dxf in source order (AST) -/
+def entitySpaceOrder : List String := {lean_list(lean_str(x) for x in entity_order)}
+
+/-- tools/codepage.py codepage_to_encoding in dict order (toencoding takes the first entry the value ends with) -/
+def codepageTable : List (String × String) := {lean_list(f"({lean_str(a)}, {lean_str(b)})" for a, b in cp_table)}
+
+/-- probe of binary_tags_loader.scan_params: is the $DWGCODEPAGE value read up to its terminating zero byte
+    (a 3-digit code page such as ANSI_932 is recognised)? -/
+def binScanFull : Bool := {"true" if bin_full else "false"}
+
+/-- lldxf/repair.py COORDINATE_FIXING_TOOLBOX: entity type -> point codes re-ordered by recover's tag_reorder_layer -/
+def coordinateFixing : List (String × List Nat) := {lean_list("(" + lean_str(k) + ", " + lean_list(str(c) for c in v) + ")" for k, v in toolbox)}
+
+/-- addons/r12export.py R12Exporter.to_string: the joined parts in order (AST) -/
+def r12exportOrder : List String := {lean_list(lean_str(x) for x in r12x_order)}
+
+/-- R12Exporter.export_layouts_to_string: statements in order (AST) -/
+def r12exportLayouts : List String := {lean_list(lean_str(x) for x in r12x_layouts)}
+
 /-- r12writer.rnd = partial(round, ndigits=...) -/
 def r12Digits : Nat := {r12writer.rnd.keywords["ndigits"]}
 
@@ -182,7 +431,7 @@ def esc(s: str) -> str:
     out = []
     for ch in s:
         o = ord(ch)
-        if ch in "%;|,[]:" or o < 32 or o > 126:
+        if ch in "%;|,[]:!~^" or o < 32 or o > 126:
             out.append("%%%d." % o)
         else:
             out.append(ch)
@@ -193,8 +442,11 @@ def tags_line(tags) -> str:
     return ";".join(f"{c},{esc(v)}" for c, v in tags)
 
 
-def file_text(tags) -> str:
-    return "".join(f"{c}\n{v}\n" for c, v in tags)
+def file_text(tags, eol=None) -> str:
+    """eol: None = LF; otherwise a function returning the line end of the next line"""
+    if eol is None:
+        return "".join(f"{c}\n{v}\n" for c, v in tags)
+    return "".join(f"{c}{eol()}{v}{eol()}" for c, v in tags)
 
 
 # ------------------------------------------------------------------ implementation side (real readers)
@@ -217,31 +469,43 @@ def show_entity(e, file_handles) -> str:
     # a SEQEND created by post_bind_hook (Drawing readers) has a fresh handle that is not in the file
     if sq is not None and sq.dxf.handle and sq.dxf.handle in file_handles:
         sqh = sq.dxf.handle
-    return f"{esc(e.dxftype())}:{esc(h(e))}[{subs}]{esc(sqh)}"
+    # the string content of a TEXT entity as delivered (tag values are not stripped by any reader)
+    txt = "=" + esc(str(e.dxf.get("text", ""))) if e.dxftype() == "TEXT" else ""
+    return f"{esc(e.dxftype())}:{esc(h(e))}[{subs}]{esc(sqh)}{txt}"
 
 
-def _run(fn, file_handles) -> str:
+def _run(fn, file_handles, also=()) -> str:
     try:
         return "ok " + ";".join(show_entity(e, file_handles) for e in fn())
     except Exception as ex:  # noqa
         n = type(ex).__name__
-        return "err:" + n if n in ("DXFStructureError", "IndexError") else "err:other:" + n
+        return "err:" + n if n in ("DXFStructureError", "IndexError") + tuple(also) else "err:other:" + n
 
 
-def real_readers(text: str, path: str, file_handles) -> dict:
-    """the five real readers on one ASCII file; strict/recover results restricted to iterdxf.SUPPORTED_TYPES"""
+def real_readers(text, path: str, file_handles, newline=None) -> dict:
+    """the five real readers on one ASCII file; strict/recover results restricted to iterdxf.SUPPORTED_TYPES.
+    `text` None: the file `path` exists already (written by a real writer in its own encoding)"""
     import ezdxf
     from ezdxf import recover
     from ezdxf.addons import iterdxf
     from ezdxf.document import Drawing
 
-    data = text.encode("utf8")
-    with open(path, "wb") as fp:
-        fp.write(data)
     sup = iterdxf.SUPPORTED_TYPES
     out = {}
     fh = file_handles
-    out["strict"] = _run(lambda: [e for e in ezdxf.read(io.StringIO(text)).modelspace() if e.dxftype() in sup], fh)
+    if text is None:
+        with open(path, "rb") as fp:
+            data = fp.read()
+        out["strict"] = _run(lambda: [e for e in ezdxf.readfile(path).modelspace() if e.dxftype() in sup], fh)
+    else:
+        data = text.encode("utf8")
+        with open(path, "wb") as fp:
+            fp.write(data)
+        if newline is None:
+            out["strict"] = _run(lambda: [e for e in ezdxf.read(io.StringIO(text)).modelspace() if e.dxftype() in sup], fh)
+        else:       # line ends other than LF: through the file, as ezdxf.readfile does (universal newlines);
+            # IOError: the sniffer is_dxf_stream of ezdxf.readfile found no (0, SECTION) tag (model: strictFileModelspace)
+            out["strict"] = _run(lambda: [e for e in ezdxf.readfile(path).modelspace() if e.dxftype() in sup], fh, also=("OSError",))
 
     def rec():
         # front end of recover.read without the audit (the model covers the front end)
@@ -313,7 +577,11 @@ class Gen:
     def simple(self, typ=None, psp=None):
         r = self.rng
         typ = typ or r.choice(["LINE", "LINE", "CIRCLE", "POINT", "ARC", "TEXT", "FOOBAR", "TOLERANCE"])
-        return [self.group(typ, SIMPLE[typ], psp)]
+        body = SIMPLE[typ]
+        if typ == "TEXT":
+            # values with leading / trailing white space: only the code-0 values are stripped by the tag compilers
+            body = body[:-1] + [(1, r.choice(["abc", " lead", "trail ", "\ttab\t", "a  b", " ", "x\x0c", "\x1fy", "Total: "]))]
+        return [self.group(typ, body, psp)]
 
     def polyline(self, broken=0):
         r = self.rng
@@ -506,8 +774,12 @@ def _reader_case(args):
     rng = random.Random(f"{seed}/rd/{idx}")
     kind, tags = gen_stream(rng)
     path = os.path.join(_POOL_TMP, "rd-%d.dxf" % os.getpid())
-    res = real_readers(file_text(tags), path, {v for c, v in tags if c == 5 and len(v) >= 4})
-    return kind, tags, res
+    # line ends: LF, CRLF or mixed per line (the tag-level result must not depend on it: theorem lines_agree)
+    style = rng.choice(["lf", "lf", "crlf", "mixed"])
+    eol = None if style == "lf" else (lambda: "\r\n") if style == "crlf" else (lambda: rng.choice(["\n", "\r\n"]))
+    res = real_readers(file_text(tags, eol), path, {v for c, v in tags if c == 5 and len(v) >= 4},
+                       newline=None if style == "lf" else "")
+    return kind + ("" if style == "lf" else "/" + style), tags, res
 
 
 _POOL_TMP = "/tmp"
@@ -545,14 +817,26 @@ def correspond(ctx):
                 ctx.hist("X1 readers", "outside-model:" + rd + ":" + impl[10:])
                 continue
             nontrivial = impl.startswith("err") or ("[" in impl and ("]" + "") in impl and any(c not in "[]" for c in impl))
-            cases.append((f"rd|{rd}|-|-|{line}", impl, impl != "ok "))
+            # line ends other than LF: the strict reader went through ezdxf.readfile (sniffer in front of ezdxf.read)
+            rname = "strictf" if rd == "strict" and "/" in kind else rd
+            cases.append((f"rd|{rname}|-|-|{line}", impl, impl != "ok "))
     if outside * 20 > len(cases):
         ctx.note(f"X1: {outside} reader runs raised an exception class outside the model")
     allcases = [("X1 readers", c) for c in cases]
     allcases += [("X2 json tags", c) for c in correspond_json(ctx)]
     allcases += [("X3 r12writer structure", c) for c in correspond_r12(ctx)]
     allcases += [("X4 exporter structure", c) for c in correspond_export(ctx, results)]
-    allcases += [("X5 writers_wf", c) for c in correspond_wf(ctx)]
+    x5, x6, x7, x12 = correspond_wf(ctx)
+    allcases += [("X5 writers_wf", c) for c in x5]
+    allcases += [("X6 writer model", c) for c in x6]
+    allcases += [("X7 readers on real files", c) for c in x7]
+    allcases += [("X12 r12export model", c) for c in x12]
+    allcases += [("X8 version/encoding decision", c) for c in correspond_detect(ctx)]
+    allcases += [("X9 binary scan_params", c) for c in correspond_binscan(ctx)]
+    allcases += [("X10 line level", c) for c in correspond_lines(ctx)]
+    allcases += [("X11 recover reorder filter", c) for c in correspond_reorder(ctx)]
+    allcases += [("X13 fileindex locations", c) for c in correspond_locations(ctx)]
+    allcases += [("X14 exporter bytes", c) for c in correspond_export_bytes(ctx, results)]
     # one driver run for all streams
     outs = ctx.driver("C08", [c[0] for _, c in allcases], build=DRIVER_DEPS)
     for (stream, (req, impl, nontriv)), model in zip(allcases, outs):
@@ -560,6 +844,453 @@ def correspond(ctx):
         if impl != model:
             ctx.disagree(stream, req, impl, model)
     ctx.cov["disagreements_checked"] += len(allcases)
+
+
+# ------------------------------------------------------------------ X8 / X9 format dispatch: version + encoding decisions
+DET_CPS = ["ANSI_1252", "ANSI_1251", "ANSI_1250", "ANSI_932", "ANSI_936", "ANSI_949", "ANSI_950", "ANSI_874", "ANSI_1258",
+           "ansi_1253", "DOS850", "", "1254", "ANSI_12520", "xANSI_950", "ANSI_949 ", "ANSI_1255", "ANSI_1256", "ANSI_1257", "932"]
+DET_VERS = ["AC1009", "AC1009", "AC1015", "AC1018", "AC1021", "AC1024", "AC1032", "AC1006", "", "ac1021", "AC102", "AC1021x",
+            "AC1020", "B", "AC1012", " AC1018", "AC1024 "]
+
+
+def _norm_enc(e: str) -> str:
+    import codecs
+
+    return codecs.lookup(e).name
+
+
+def gen_detect(rng):
+    """-> (kind, tags) of an ASCII file whose header decides version and encoding in ordinary and odd ways"""
+    r = rng
+    kinds = []
+    ver_code, cp_code = 1, 3
+    if r.random() < 0.08:
+        ver_code = r.choice([3, 2, 8])
+        kinds.append("ver-code")
+    if r.random() < 0.08:
+        cp_code = r.choice([1, 2, 8])
+        kinds.append("cp-code")
+    pool = {
+        "$ACADVER": lambda: [(ver_code, r.choice(DET_VERS))],
+        "$DWGCODEPAGE": lambda: [(cp_code, r.choice(DET_CPS))],
+        "$HANDSEED": lambda: [(5, "FF")],
+        "$INSUNITS": lambda: [(70, r.choice(["6", "x"]))],
+        "$INSBASE": lambda: [(10, "0.0"), (20, "0.0")] + ([(30, "0.0")] if r.random() < 0.7 else []),
+        "$EXTMIN": lambda: [(10, "1.0"), (20, "2.0"), (30, "3.0")],
+        "$LIMMAX": lambda: [(10, "420.0"), (20, "297.0")],
+        "$LTSCALE": lambda: [(40, "1.0")],
+        "$CLAYER": lambda: [(8, "0")],
+        "$CUSTOMPROPERTYTAG": lambda: [(1, r.choice(["$ACADVER", "AC1032", "x"]))],
+        "$PROJECTNAME": lambda: [(1, "")],
+    }
+    names = [n for n in pool if r.random() < (0.85 if n in ("$ACADVER", "$DWGCODEPAGE") else 0.5)]
+    r.shuffle(names)
+    if r.random() < 0.6 and "$ACADVER" in names:      # the usual place
+        names.remove("$ACADVER")
+        names.insert(0, "$ACADVER")
+    if r.random() < 0.15:
+        names.insert(r.randrange(len(names) + 1), r.choice(["$ACADVER", "$DWGCODEPAGE", "$HANDSEED", "$INSUNITS"]))
+        kinds.append("duplicate")
+    hdr = []
+    for n in names:
+        hdr.append((9, n))
+        if r.random() < 0.04:
+            hdr.append((999, "comment in front of the value"))
+            kinds.append("comment-before-value")
+        hdr += pool[n]()
+        if r.random() < 0.04:
+            hdr.append((999, "comment"))
+            kinds.append("comment")
+    if r.random() < 0.05:
+        hdr.append((9, r.choice(["$ACADVER", "$DWGCODEPAGE", "$FOO"])))     # name without value at the end of the section
+        kinds.append("name-at-end")
+    secs = [("HEADER", hdr)]
+    x = r.random()
+    if x < 0.08:
+        secs = []
+        kinds.append("no-header")
+    elif x < 0.16:
+        secs.insert(0, ("TABLES", []))
+        kinds.append("header-second")
+    elif x < 0.22:
+        secs.append(("HEADER", [(9, "$ACADVER"), (1, r.choice(DET_VERS)), (9, "$DWGCODEPAGE"), (3, r.choice(DET_CPS))]))
+        kinds.append("two-headers")
+    if r.random() < 0.5:
+        secs.append(("TABLES", []))
+    if r.random() < 0.12:
+        secs.append(("BLOCKS", [(0, "BLOCK"), (2, "B"), (9, r.choice(["$ACADVER", "$DWGCODEPAGE"])), (r.choice([1, 3]), r.choice(DET_VERS + DET_CPS)),
+                                (0, "ENDBLK")]))
+        kinds.append("var-outside-header")
+    tags = []
+    for name, body in secs:
+        tags += [S, (2, name)] + body + [E]
+        if name == "HEADER" and r.random() < 0.05:
+            tags += [(9, "$DWGCODEPAGE"), (3, r.choice(DET_CPS))]           # between two sections
+            kinds.append("var-between-sections")
+    tags += [S, (2, "ENTITIES"), (0, "TEXT"), (8, "0"), (10, "0.0"), (20, "0.0"), (30, "0.0"), (40, "1.0"), (1, "PROBE"), E]
+    if r.random() < 0.5:
+        tags += [S, (2, "OBJECTS"), E]
+    tags.append(EOF_T)
+    return "+".join(sorted(set(kinds))) or "plain", tags
+
+
+def _det_case(args):
+    seed, idx, tmp = args
+    _quiet()
+    from ezdxf import recover
+    from ezdxf.addons import iterdxf
+    from ezdxf.filemanagement import dxf_file_info
+    from ezdxf.lldxf import fileindex
+
+    rng = random.Random(f"{seed}/det/{idx}")
+    kind, tags = gen_detect(rng)
+    pb, dec = probe_bytes()
+    data = b"".join(b"%d\n" % c + (pb if v == "PROBE" else v.encode("ascii")) + b"\n" for c, v in tags)
+    if idx % 5 == 0:
+        data = data.replace(b"\n", b"\r\n")
+    path = os.path.join(tmp, "det-%d.dxf" % os.getpid())
+    with open(path, "wb") as fp:
+        fp.write(data)
+
+    def guard(fn):
+        try:
+            return fn()
+        except Exception as ex:  # noqa
+            return "err:" + type(ex).__name__
+
+    def a():
+        i = dxf_file_info(path)
+        return f"{esc(i.version)},{_norm_enc(i.encoding)}"
+
+    def b():
+        fs = fileindex.load(path)
+        return f"{esc(fs.version)},{_norm_enc(fs.encoding)}"
+
+    def c():
+        with open(path, "rb") as fp:
+            texts = [e.dxf.text for e in iterdxf.single_pass_modelspace(fp) if e.dxftype() == "TEXT"]
+        return dec.get(texts[0], "?") if texts else "none"
+
+    def d():
+        with open(path, "rb") as fp:
+            return _norm_enc(recover.detect_encoding(recover.bytes_loader(fp)))
+
+    def e():
+        with open(path, "rb") as fp:
+            return esc(recover.Recover.run(fp).dxfversion)
+
+    return kind, tags, "|".join(guard(f) for f in (a, b, c, d)), guard(e)
+
+
+def correspond_detect(ctx):
+    n = ctx.n(1500, 30000)
+    with _pool(8) as pool:
+        results = pool.map(_det_case, [(ctx.seed, i, str(ctx.scratch)) for i in range(n)], chunksize=50)
+    cases = []
+    for kind, tags, impl, implv in results:
+        ctx.hist("X8 version/encoding decision", kind)
+        if not implv.startswith("err:"):
+            cases.append(("detv|" + tags_line(tags), implv, implv != "AC1009"))
+        else:
+            ctx.hist("X8 version/encoding decision", "recover-raised:" + implv[4:])
+        if "err:" in impl:
+            ctx.hist("X8 version/encoding decision", "outside-model:" + impl)
+            continue
+        cases.append(("det|" + tags_line(tags), impl, len(set(impl.split("|")[i].split(",")[-1] for i in range(4))) > 1 or "cp1252" not in impl))
+    return cases
+
+
+def gen_bin_header(rng):
+    r = rng
+    pb, _ = probe_bytes()
+    kinds = []
+    has_ver = r.random() < 0.9
+    ver = r.choice(["AC1009", "AC1009", "AC1015", "AC1018", "AC1021", "AC1032", "AC1006", "AC1012"]) if has_ver else "AC1009"
+    r12 = ver <= "AC1009"
+    data = BIN_SENTINEL + _btag(r12, 0, b"SECTION") + _btag(r12, 2, b"HEADER")
+    if has_ver:
+        data += _btag(r12, 9, b"$ACADVER") + _btag(r12, 1, ver.encode())
+    else:
+        kinds.append("no-acadver")
+    nbetween = r.choice([0, 0, 1, 3, 8, 30, 45, 60])
+    for i in range(nbetween):
+        name = r.choice([b"$ACADMAINTVER", b"$CLAYER", b"$TEXTSTYLE", b"$PROJECTNAME", b"$CUSTOMPROPERTYTAG", b"$LASTSAVEDBY"])
+        if r.random() < 0.03:
+            name = r.choice([b"$DWGCODEPAGEX", b"$ACADVERSION"])
+            kinds.append("look-alike")
+        data += _btag(r12, 9, name) + _btag(r12, r.choice([1, 2, 3, 7, 8]), r.choice([b"", b"0", b"Standard", b"some text value", b"ANSI_1251"]))
+    if nbetween >= 30:
+        kinds.append("far")
+    cp = None
+    if r.random() < 0.9:
+        cp = r.choice(DET_CPS + ["ANSI_1251", "ANSI_932", "ANSI_936", "A", "ANSI", "ANSI_"])
+        data += _btag(r12, 9, b"$DWGCODEPAGE")
+        if r.random() < 0.06 and ver < "AC1021":      # (for R2007+ the scan does not look at the code page)
+            data += (bytes([3]) if r12 else b"\x03\x00") + cp.encode()[:r.randint(0, 4)]       # truncated inside the value
+            kinds.append("truncated")
+            return "+".join(kinds), r12, data
+        data += _btag(r12, 3, cp.encode())
+    else:
+        kinds.append("no-codepage")
+    data += _btag(r12, 0, b"ENDSEC") + _btag(r12, 1, pb) + _btag(r12, 0, b"EOF")
+    return "+".join(kinds) or "plain", r12, data
+
+
+def correspond_binscan(ctx):
+    rng = ctx.rng("binscan")
+    cases = []
+    for i in range(ctx.n(600, 8000)):
+        kind, r12, data = gen_bin_header(rng)
+        ctx.hist("X9 binary scan_params", kind)
+        impl = _bin_encoding(data)
+        if impl.startswith("other:") or impl == "?" or (impl == "err" and ("truncated" not in kind or "look-alike" in kind)):
+            # IndexError raised by the tag loop behind scan_params (a look-alike name made the loader choose the other
+            # group code width): not the decision modelled here
+            ctx.hist("X9 binary scan_params", "outside-model:" + impl)
+            continue
+        cases.append(("bin|" + " ".join(str(b) for b in data), impl, impl != "cp1252"))
+    return cases
+
+
+# ------------------------------------------------------------------ X10 line level: bytes -> (code, value) pairs
+def gen_line_bytes(rng):
+    """-> (kind, bytes): tags written with LF / CRLF / mixed line ends, plus the odd cases: a lone CR as line end or
+    inside a value, a value ending with CR, no final newline, an odd number of lines, blank or non-numeric code lines,
+    padded group codes, very long values"""
+    r = rng
+    kinds = set()
+    style = r.choice(["lf", "crlf", "mixed", "mixed"])
+    out = b""
+    n = r.choice([0, 1, 2, 3, 5, 8])
+    for i in range(n):
+        code = r.choice([0, 1, 2, 3, 5, 8, 9, 100, 330, 1000, 1001, 1071])
+        val = r.choice([b"LINE", b"SECTION", b"", b" pad ", b"abc", b"x" * r.choice([10, 300, 3000]), b"A1", b"tab\tx"])
+        x = r.random()
+        if x < 0.05:
+            val = b"ab\rcd"
+            kinds.add("cr-in-value")
+        elif x < 0.09:
+            val = val + b"\r"
+            kinds.add("value-ends-with-cr")
+        cl = b"%3d" % code
+        y = r.random()
+        if y < 0.06:
+            cl = r.choice([b" %d ", b"\t%d", b"%d\t", b"0%d", b"  %d"]) % code
+            kinds.add("padded-code")
+        elif y < 0.09:
+            cl = r.choice([b"", b"abc", b" ", b"x y", b"1 0", b"a7b"])
+            kinds.add("bad-code")
+
+        def eol():
+            if style == "lf":
+                return b"\n"
+            if style == "crlf":
+                return b"\r\n"
+            z = r.random()
+            if z < 0.04:
+                kinds.add("lone-cr-eol")
+                return b"\r"
+            return b"\n" if z < 0.5 else b"\r\n"
+
+        out += cl + eol() + val + eol()
+    if out and r.random() < 0.04:
+        out = b"\xef\xbb\xbf" + out            # UTF-8 byte order mark: no reader strips it
+        kinds.add("bom")
+    z = r.random()
+    if z < 0.08 and out:
+        out = out.rstrip(b"\r\n")
+        kinds.add("no-final-newline")
+    elif z < 0.16:
+        out += b"%3d" % r.choice([0, 1, 5]) + r.choice([b"\n", b"\r\n", b""])
+        kinds.add("odd-line-count")
+    return style + ("+" + "+".join(sorted(kinds)) if kinds else ""), out
+
+
+def correspond_lines(ctx):
+    from ezdxf import recover
+    from ezdxf.addons import iterdxf
+    from ezdxf.lldxf.const import DXFStructureError
+    from ezdxf.lldxf.tagger import ascii_tags_loader
+
+    rng = ctx.rng("lines")
+    path = os.path.join(str(ctx.scratch), "lines.dxf")
+    cases = []
+
+    def show(tags, conv):
+        return ";".join(f"{t.code},{esc(conv(t.value))}" for t in tags)
+
+    for i in range(ctx.n(2500, 40000)):
+        kind, data = gen_line_bytes(rng)
+        ctx.hist("X10 line level", kind)
+        with open(path, "wb") as fp:
+            fp.write(data)
+        res = []
+        try:
+            with open(path, "rt", encoding="latin-1") as fp:       # universal newlines, as ezdxf.readfile opens the file
+                res.append("T" + show(list(ascii_tags_loader(fp, skip_comments=False)), str))
+        except DXFStructureError:
+            res.append("Terr")
+        try:
+            with open(path, "rb") as fp:
+                res.append("B" + show(list(recover.bytes_loader(fp)), lambda b: b.decode("latin-1")))
+        except DXFStructureError:
+            res.append("Berr")
+        got = []
+        with open(path, "rb") as fp:
+            try:
+                for t in iterdxf.binary_tagger(fp):
+                    got.append(t)
+            except DXFStructureError:
+                pass      # int(b"") at the end of the stream, always; an invalid group code line ends it earlier
+        res.append("G" + show(got, lambda b: b.decode("latin-1")))
+        cases.append(("ln|" + " ".join(str(b) for b in data), "|".join(res), len(data) > 0))
+    return cases
+
+
+# ------------------------------------------------------------------ X14 iterdxf exporter, byte level
+def _triples(data: bytes):
+    """bytes -> [(code, value, crlf)] ; crlf = the line of the group code ends with CRLF"""
+    lines = data.split(b"\n")
+    if lines and lines[-1] == b"":
+        lines.pop()
+    out = []
+    for i in range(0, len(lines) - 1, 2):
+        out.append((int(lines[i]), lines[i + 1].rstrip(b"\r").decode("ascii"), lines[i].endswith(b"\r")))
+    return out
+
+
+def correspond_export_bytes(ctx, reader_results):
+    """the real iterdxf exporter on source files with LF / CRLF / mixed line ends: the exported BYTES vs exportBytes
+    (copied prefix, written entities with LF, ENDSEC with CRLF, copied OBJECTS section, EOF with CRLF)"""
+    from ezdxf.addons import iterdxf
+
+    rng = ctx.rng("exportbytes")
+    cases = []
+    src = os.path.join(str(ctx.scratch), "xb-s.dxf")
+    dst = os.path.join(str(ctx.scratch), "xb-d.dxf")
+    for kind, tags, res in reader_results:
+        if kind.split("/")[0] != "wellformed" or res["idx"].startswith("err"):
+            continue
+        if len(cases) >= ctx.n(120, 1500):
+            break
+        style = rng.choice(["lf", "crlf", "mixed"])
+        flags = [style == "crlf" or (style == "mixed" and rng.random() < 0.5) for _ in tags]
+        data = b"".join(b"%3d" % c + (b"\r\n" if f else b"\n") + v.encode("ascii") + (b"\r\n" if f else b"\n")
+                        for (c, v), f in zip(tags, flags))
+        with open(src, "wb") as fp:
+            fp.write(data)
+        ex = None
+        try:
+            it = iterdxf.opendxf(src)
+            try:
+                ex = it.export(dst)
+                for e in it.modelspace():
+                    ex.write(e)
+                ex.close()
+            finally:
+                it.close()
+                if ex is not None and not ex.file.closed:
+                    ex.file.close()
+        except Exception as e2:  # noqa
+            ctx.hist("X14 exporter bytes", "raised:" + type(e2).__name__)
+            continue
+        with open(dst, "rb") as fp:
+            out = fp.read()
+        # positions in the source: tags in front of the first structure tag behind the ENTITIES section head
+        k = next(j for j, t in enumerate(tags) if t == (2, "ENTITIES") and j > 0 and tags[j - 1] == S)
+        npre = next(j for j in range(k + 1, len(tags)) if tags[j][0] == 0)
+        ver = next((tags[j + 1][1] for j, t in enumerate(tags[:-1]) if t == (9, "$ACADVER")), "AC1009")
+        obj = "-"
+        nobj = 0
+        if ver > "AC1009":
+            o = next(j for j, t in enumerate(tags) if t == (2, "OBJECTS") and j > 0 and tags[j - 1] == S) - 1
+            oe = next(j for j in range(o, len(tags)) if tags[j] == E)
+            nobj = oe - o + 1
+            obj = f"{o},{nobj}"
+        dtr = _triples(out)
+        written = dtr[npre: len(dtr) - 1 - nobj - 1]
+        req = "xb|" + ";".join(f"{c},{esc(v)},{int(f)}" for (c, v), f in zip(tags, flags)) + f"|{npre}|{obj}|" \
+              + ";".join(f"{c},{esc(v)}" for c, v, _ in written)
+        cases.append((req, " ".join(str(b) for b in out), bool(written)))
+        ctx.hist("X14 exporter bytes", style + ("/objects" if nobj else "/r12"))
+    return cases
+
+
+# ------------------------------------------------------------------ X13 fileindex locations
+def correspond_locations(ctx):
+    """the byte offsets fileindex.load records for the structure tags (what IterDXF.load_entities seeks to) vs locationOf"""
+    from ezdxf.lldxf import fileindex
+
+    rng = ctx.rng("locations")
+    path = os.path.join(str(ctx.scratch), "loc.dxf")
+    cases = []
+    for i in range(ctx.n(300, 4000)):
+        kind, tags = gen_stream(random.Random(f"{ctx.seed}/loc/{i}"))
+        if kind.split("+")[0] not in ("wellformed", "comment"):
+            continue
+        style = rng.choice(["lf", "crlf", "mixed", "mixed"])
+        flags = [style == "crlf" or (style == "mixed" and rng.random() < 0.5) for _ in tags]
+        # long values now and then: the offsets must not depend on any line length
+        tags = [(c, v * rng.choice([1, 1, 1, 40]) if c == 1 else v) for c, v in tags]
+        data = b"".join(b"%3d" % c + (b"\r\n" if f else b"\n") + v.encode("ascii") + (b"\r\n" if f else b"\n")
+                        for (c, v), f in zip(tags, flags))
+        with open(path, "wb") as fp:
+            fp.write(data)
+        try:
+            fs = fileindex.load(path)
+        except Exception as ex:  # noqa
+            ctx.hist("X13 fileindex locations", "raised:" + type(ex).__name__)
+            continue
+        impl = ",".join(str(e.location) for e in fs.index if e.code == 0)
+        req = "loc|" + ";".join(f"{c},{esc(v)},{int(f)}" for (c, v), f in zip(tags, flags))
+        cases.append((req, impl, True))
+        ctx.hist("X13 fileindex locations", style)
+    return cases
+
+
+# ------------------------------------------------------------------ X11 recover's coordinate re-ordering filter
+def correspond_reorder(ctx):
+    from ezdxf.lldxf import repair
+    from ezdxf.lldxf.types import DXFTag
+
+    rng = ctx.rng("reorder")
+    cases = []
+    coords = [(10, "1"), (20, "2"), (30, "3"), (11, "4"), (21, "5"), (31, "6")]
+    for i in range(ctx.n(1200, 20000)):
+        r = rng
+        tags = []
+        if r.random() < 0.1:
+            tags += [(5, "AA"), (8, "x")]                     # tags in front of the first structure tag
+        for _ in range(r.choice([1, 2, 3, 5])):
+            typ = r.choice(["LINE", "LINE", "LINE", "CIRCLE", "DIMENSION", " LINE", "line", "POINT", "SECTION"])
+            g = [(0, typ), (5, "%X" % r.randrange(16, 4000)), (8, "0")]
+            cs = list(coords)
+            mode = r.choice(["canon", "canon", "legacy", "shuffled", "missing", "dup", "split", "none"])
+            if mode == "legacy":
+                cs = [coords[0], coords[3], coords[1], coords[4], coords[2], coords[5]]       # x1 x2 y1 y2 z1 z2
+            elif mode == "shuffled":
+                r.shuffle(cs)
+            elif mode == "missing":
+                cs = [c for c in cs if r.random() < 0.6]
+            elif mode == "dup":
+                cs.insert(r.randrange(len(cs) + 1), (r.choice([10, 21, 30]), "9"))
+            elif mode == "none":
+                cs = []
+            if mode == "split":
+                g += cs[:3] + [(100, "AcDbX"), (39, "1.5")] + cs[3:]
+            else:
+                k = r.randrange(len(g), len(g) + 1)
+                g += [(39, "0.5")] * r.choice([0, 1]) + cs + [(210, "0"), (220, "0"), (230, "1")] * r.choice([0, 1])
+            if r.random() < 0.2:
+                g += [(1001, "APP"), (1010, "1"), (1020, "2"), (1030, "3")]
+            tags += g
+            ctx.hist("X11 recover reorder filter", typ.strip().upper() + "/" + mode)
+        if r.random() < 0.85:
+            tags += [(0, "EOF")]
+        got = list(repair.tag_reorder_layer(iter([DXFTag(c, v.encode()) for c, v in tags])))
+        impl = ";".join(f"{t.code},{esc(t.value.decode())}" for t in got)
+        cases.append(("ro|" + tags_line(tags), impl, impl != tags_line(tags)))
+    return cases
 
 
 # ------------------------------------------------------------------ X2 JSON tags
@@ -688,6 +1419,16 @@ def correspond_r12(ctx):
         assert pos == len(groups)
         cases.append((f"r12|{tags_line(pre)}|" + "!".join(enc), tags_line(tags), True))
         ctx.hist("X3 r12writer structure", "fixed_tables" if fixed else "plain")
+        if i % 5 == 0:
+            # the five real readers on the real r12writer file vs the reader models on its tags
+            p2 = os.path.join(str(ctx.scratch), "r12w.dxf")
+            with open(p2, "wb") as fp:
+                fp.write(out.getvalue().encode("cp1252", "replace"))
+            t2 = dxfparse.parse_ascii(out.getvalue().encode("cp1252", "replace").decode("cp1252"))
+            rr = real_readers(None, p2, set())
+            for rd in READERS:
+                if not rr[rd].startswith("err:other:"):
+                    cases.append((f"rd|{rd}|-|-|{tags_line(t2)}", rr[rd], True))
     return cases
 
 
@@ -735,7 +1476,7 @@ def correspond_export(ctx, reader_results):
     cases = []
     todo = []
     for kind, tags, res in reader_results:
-        if kind != "wellformed" or res["idx"].startswith("err"):
+        if kind.split("/")[0] != "wellformed" or res["idx"].startswith("err"):
             continue
         ver = next((tags[j + 1][1] for j, t in enumerate(tags[:-1]) if t == (9, "$ACADVER")), "AC1009")
         todo.append((tags, ver))
@@ -752,42 +1493,237 @@ def correspond_export(ctx, reader_results):
 
 
 # ------------------------------------------------------------------ X5 writers_wf: FileWF' of the model on real written files
+def _ent_line(groups) -> str:
+    return "~".join(tags_line(g) for g in groups)
+
+
 def _wf_case(args):
-    seed, idx = args
+    """one generated document written by the REAL Drawing.write:
+    X5 FileWF' of the model on the file; X6 the writer model: the document's sections and entity spaces exported ONE BY
+    ONE through their own export_dxf into separate tag writers, assembled by the model's `writeDoc`, must be the file the
+    real Drawing.write produced, and the records must satisfy the local predicate DocOK; X7 the five real readers on
+    the real file vs the five reader models on its tags"""
+    seed, idx, tmp = args
     _quiet()
     import dxfparse
+    from ezdxf.lldxf.tagwriter import TagWriter
 
     signal.signal(signal.SIGALRM, _on_alarm)
     rng = random.Random(f"{seed}/wf/{idx}")
     vname = list(VERSIONS)[idx % 7]
+    ver = VERSIONS[vname]
+    kinds = []
     try:
         signal.alarm(30)
-        doc, made = build_document(rng, vname, rng.choice(list(CODEPAGES)), False)
+        if idx % 3 == 2:
+            from gen.dochist import Runner, gen_rich
+
+            r = Runner(vname)
+            choose = gen_rich(random.Random(rng.randrange(1 << 30)))
+            for _ in range(rng.choice([10, 20, 30])):
+                op = choose(r)
+                if vname == "R12" and op[0] in ("newlayout", "dellayout", "renlayout", "activate", "reload"):
+                    continue
+                if op[0] == "reactor":
+                    continue
+                r.apply(op)
+                kinds.append(op[0])
+            doc = r.doc
+        else:
+            doc, made = build_document(rng, vname, rng.choice(list(CODEPAGES)), False)
+            kinds = [m[0] for m in made]
         out = io.StringIO()
         doc.write(out)
     except _Timeout:
         return None
+    except Exception as ex:  # noqa
+        if "All entities have to be in the same layout" in str(ex):
+            return None      # C04's finding F21: nothing was written
+        raise
     finally:
         signal.alarm(0)
-    tags = dxfparse.parse_ascii(out.getvalue())
+    text = out.getvalue()
+    tags = dxfparse.parse_ascii(text)
     msp = doc.modelspace().layout_key
-    psp = doc.paperspace().layout_key
-    return vname, [m[0] for m in made], f"wf|{msp}|{psp}|{tags_line(tags)}"
+    psp = doc.active_layout().layout_key
+    res = {"kinds": kinds, "version": vname, "wf": f"wf|{msp}|{psp}|{tags_line(tags)}"}
+    # --- X6: the parts, exported one by one
+    handles = bool(doc.header.get("$HANDLING", 0)) if ver == "AC1009" else True
+
+    def part(export):
+        sio = io.StringIO()
+        export(TagWriter(sio, write_handles=handles, dxfversion=ver))
+        return dxfparse.parse_ascii(sio.getvalue())
+
+    def sec(export):
+        t = part(export)
+        if len(t) < 3 or t[0] != S or t[1][0] != 2 or t[-1] != E:
+            raise ValueError("section export without SECTION/name/ENDSEC frame: %r" % (t[:3],))
+        return t[1][1], t[2:-1]
+
+    def space(layout):
+        ents = []
+        for e in layout.entity_space:
+            recs = dxfparse.records(part(e.export_dxf))
+            if not recs:
+                continue      # nothing written for this entity (LWPOLYLINE / MLINE without vertices)
+            if len(recs) > 1 and recs[-1][0][1] == "SEQEND":
+                ents.append(_ent_line([recs[0]] + recs[1:-1]) + "!" + tags_line(recs[-1]))
+            else:
+                ents.append(_ent_line(recs) + "!")
+        return "^".join(ents)
+
+    r12 = not ver > "AC1009"
+    hdr = sec(doc.header.export_dxf)[1]
+    cls = [] if r12 else sec(doc.classes.export_dxf)[1]
+    tab = sec(doc.tables.export_dxf)[1]
+    blk = sec(doc.blocks.export_dxf)[1]
+    obj = [] if r12 else sec(doc.objects.export_dxf)[1]
+    # AcDsDataSection.export_dxf writes nothing unless the section is valid AND has records
+    acds = tags_line(sec(doc.acdsdata.export_dxf)[1]) if doc.acdsdata.is_valid and part(doc.acdsdata.export_dxf) else "-"
+    stored = "^".join(esc(n) + "~" + tags_line(b) for n, b in (sec(x.export_dxf) for x in doc.stored_sections))
+    res["wd"] = "|".join(["wd", msp, psp, str(int(r12)), tags_line(hdr), tags_line(cls), tags_line(tab), tags_line(blk),
+                          tags_line(obj), acds, stored, space(doc.modelspace()), space(doc.active_layout())])
+    res["wd_impl"] = "1|1|1|" + tags_line(tags)
+    # --- X7: the five real readers on the real file
+    path = os.path.join(tmp, "wfr-%d.dxf" % os.getpid())
+    doc.saveas(path)
+    with open(path, "rb") as fp:
+        enc = "utf8" if ver >= "AC1021" else doc.encoding
+        ftags = dxfparse.parse_ascii(fp.read().decode(enc, "surrogateescape").replace("\r\n", "\n"))
+    # handles of the entities in the file (the header's $HANDSEED value is the first handle the loader hands out)
+    fh = {v for j, (c, v) in enumerate(ftags) if c == 5 and not (j > 0 and ftags[j - 1] == (9, "$HANDSEED"))}
+    res["rd_line"] = f"{msp}|{psp}|{tags_line(ftags)}"
+    res["rd"] = real_readers(None, path, fh)
+    # --- the other real writers on the same document: iterdxf exporter (mixed line ends) and r12export
+    res["more"] = []
+
+    def entity_handles(ft):
+        return {v for j, (c, v) in enumerate(ft) if c == 5 and not (j > 0 and ft[j - 1] == (9, "$HANDSEED"))}
+
+    def read_tags(p2, enc2):
+        with open(p2, "rb") as fp:
+            return dxfparse.parse_ascii(fp.read().decode(enc2, "surrogateescape").replace("\r\n", "\n"))
+
+    from ezdxf.addons import iterdxf, r12export
+
+    pe = path[:-4] + "-e.dxf"
+    try:
+        it = iterdxf.opendxf(path)
+        ex = None
+        try:
+            ex = it.export(pe)
+            for e in it.modelspace():
+                ex.write(e)
+            ex.close()
+        finally:
+            it.close()
+            if ex is not None and not ex.file.closed:
+                ex.file.close()
+        et = read_tags(pe, enc)
+        res["more"].append(("export", f"{msp}|{psp}|{tags_line(et)}", real_readers(None, pe, entity_handles(et))))
+    except Exception as ex2:  # noqa
+        res["more"].append(("export-raised:" + type(ex2).__name__, None, None))
+    if ver != "AC1009":
+        pr = path[:-4] + "-r.dxf"
+        try:
+            signal.alarm(20)
+            try:
+                r12export.saveas(doc, pr)
+            finally:
+                signal.alarm(0)
+            rt = read_tags(pr, doc.encoding if ver < "AC1021" else "cp1252")
+            if not file_problems(pr):
+                res["more"].append(("r12export", f"-|-|{tags_line(rt)}", real_readers(None, pr, entity_handles(rt))))
+            # X12: the r12export writer model - a second exporter run, its parts taken one by one in the order to_string
+            # produces them (layouts, blocks, header, tables), assembled by the model
+            from ezdxf.addons.r12export import R12Exporter
+
+            signal.alarm(20)
+            try:
+                # (render.hatching jiggles pattern lines by random.random(): both runs start from the same state of the
+                # global generator, which is restored afterwards)
+                rstate = random.getstate()
+                random.seed(20260930)
+                whole = dxfparse.parse_ascii(R12Exporter(doc).to_string())
+                random.seed(20260930)
+                x = R12Exporter(doc)
+
+                def space_tags(sp):
+                    sio = io.StringIO()
+                    x._tagwriter.set_stream(sio)
+                    x.export_entity_space(sp)
+                    return dxfparse.parse_ascii(sio.getvalue())
+
+                m_t = space_tags(doc.modelspace().entity_space)
+                p_t = space_tags(doc.paperspace().entity_space)
+
+                def body(text):
+                    t = dxfparse.parse_ascii(text)
+                    if len(t) < 3 or t[0] != S or t[1][0] != 2 or t[-1] != E:
+                        raise ValueError("r12export part without SECTION/name/ENDSEC frame")
+                    return t[2:-1]
+
+                b_t = body(x.export_blocks_to_string())
+                h_t = body(x.export_header_to_string())
+                t_t = body(x.export_tables_to_string())
+                res["r12x"] = ("|".join(["r12x", tags_line(h_t), tags_line(t_t), tags_line(b_t), tags_line(m_t), tags_line(p_t)]),
+                               "1|" + tags_line(whole))
+            finally:
+                signal.alarm(0)
+                random.setstate(rstate)
+        except _Timeout:
+            pass
+        except Exception as ex3:  # noqa
+            res["more"].append(("r12export-raised:" + type(ex3).__name__, None, None))
+    for px in (pe, path[:-4] + "-r.dxf"):
+        try:
+            os.remove(px)
+        except OSError:
+            pass
+    return res
 
 
 def correspond_wf(ctx):
-    """`writers_wf` on the real code: the decidable FileWF' of the Lean model holds for what Drawing.write produces"""
-    n = ctx.n(42, 700)
+    """`writers_wf` on the real code (X5), the writer model against the real Drawing.write (X6), the reader models
+    against the real readers on real written files (X7)"""
+    n = ctx.n(42, 500)
     with _pool(8) as pool:
-        results = pool.map(_wf_case, [(ctx.seed, i) for i in range(n)], chunksize=2)
-    cases = []
+        results = pool.map(_wf_case, [(ctx.seed, i, str(ctx.scratch)) for i in range(n)], chunksize=2)
+    x5, x6, x7, x12 = [], [], [], []
     for r in results:
         if r is None:
             continue
-        vname, kinds, line = r
-        ctx.hist("X5 writers_wf", vname)
-        cases.append((line, "1", True))
-    return cases
+        ctx.hist("X5 writers_wf", r["version"])
+        x5.append((r["wf"], "1", True))
+        x6.append((r["wd"], r["wd_impl"], True))
+        ctx.hist("X6 writer model", r["version"])
+        for k in set(r["kinds"]):
+            ctx.hist("X6 writer model", "k:" + str(k))
+        for rd in READERS:
+            impl = r["rd"][rd]
+            if impl.startswith("err:other:"):
+                ctx.hist("X7 readers on real files", "outside-model:" + rd + ":" + impl[10:])
+                continue
+            x7.append((f"rd|{rd}|{r['rd_line']}", impl, impl != "ok "))
+        if "r12x" in r:
+            x12.append((r["r12x"][0], r["r12x"][1], True))
+        for wname, line, rr in r["more"]:
+            ctx.hist("X7 readers on real files", "writer:" + wname)
+            if line is None:
+                continue
+            for rd in READERS:
+                impl = rr[rd]
+                if impl.startswith("err:other:"):
+                    ctx.hist("X7 readers on real files", "outside-model:" + wname + ":" + rd + ":" + impl[10:])
+                    continue
+                if rd == "rec" and "\\U+" in line:
+                    # known finding F7: recover decodes the \U+XXXX escapes r12export writes for characters outside
+                    # cp1252 (text decoding is outside the tag-level model)
+                    ctx.hist("X7 readers on real files", "F7-dxf-unicode:" + wname)
+                    continue
+                x7.append((f"rd|{rd}|{line}", impl, impl != "ok "))
+    return x5, x6, x7, x12
 
 
 # =========================================================================================== oracle on the real code
